@@ -109,6 +109,7 @@ def gen_c19(rng: random.Random) -> dict:
         device["invalid_password"] = True
     steps: list[dict] = []
     tags: list[str] = []
+    no_cb = rng.random() < 0.2
     n = rng.randint(3, 12)
     for _ in range(n):
         r = rng.random()
@@ -116,6 +117,8 @@ def gen_c19(rng: random.Random) -> dict:
             steps.append({"do": "connect", "login": rng.random() < 0.5})
         elif r < 0.36:
             steps.append({"do": "start"})
+        if r < 0.36 and no_cb:
+            steps[-1]["no_on_stop"] = True  # the application passes no stop callback (the default)
         elif r < 0.48:
             steps.append({"do": "finish", "login": rng.random() < 0.5})
         elif r < 0.64:
